@@ -1,38 +1,39 @@
 import Toodee.Spec.Grid
+import Toodee.Spec.Seq
 import Toodee.Spec.OpsSpec
-import Toodee.Impl.Copy
-import Toodee.Impl.Sort
-import Toodee.Impl.Translate
+import Toodee.Impl.Recv
+import Toodee.Impl.Insert
+import Toodee.Impl.Remove
 /-
-  Histories of safe public operations on an owned array (property C01): an operation type, the Impl-model's step
-  function (`hstep`: what the array is afterwards — also after a rejected call or a panic in caller code), and the
-  rows-of-cells model's step function (`gstep`).
+  Histories of safe public operations on an owned array (properties C01, C05, C11, C12 at history level):
+  * `HOp`     one call of the public API with arbitrary (valid or invalid) arguments, including how far a drain is consumed before
+              it is dropped or leaked, iterator scripts that lie or panic, and side sorts whose caller code panics;
+  * `hstep`   the Impl-model: the array afterwards (also after a rejected call or a panic in caller code);
+  * `hres`    the Impl-model: the outcome the caller sees (`ok` / `panic`; `ub` and `fuel` are proved impossible, C01_no_ub);
+  * `gstep`   the plain rows-of-cells model of the same call (the refinement target of C01);
+  * `hflow`   where elements come from and go to during the call (C05).
 -/
 namespace Toodee
 variable {α : Type}
 
 /-- one safe public operation on an owned array, with arbitrary (valid or invalid) arguments -/
 inductive HOp (α : Type)
-  | fromVec (c r : Nat) (v : List α)                                   -- replace by a freshly constructed array (rejected: unchanged)
-  | insertRow (i : Nat) (it : IterScript α) (spare : List α)           -- any iterator script; `spare` = what `reserve` provided
+  | fromVec (c r : Nat) (v : List α)                          -- `t = TooDee::from_vec(c, r, v)` (rejected: `t` unchanged, `v` dropped)
+  | insertRow (i : Nat) (it : IterScript α) (spare : List α)  -- any iterator script; `spare` = the cells `reserve` provided
   | insertCol (i : Nat) (it : IterScript α) (spare : List α)
-  | removeRow (i : Nat)                                                -- the drain consumed to any extent, then dropped
-  | removeCol (i : Nat)
-  | popRow
-  | popCol
+  | removeRow (i : Nat) (w : List Bool)                       -- the drain is consumed along `w` (true = `next`, false = `next_back`), then dropped
+  | removeCol (i : Nat) (w : List Bool)
+  | popRow (w : List Bool)
+  | popCol (w : List Bool)
+  | removeRowLeak (i : Nat) (w : List Bool)                   -- … consumed along `w`, then leaked (`mem::forget`)
+  | removeColLeak (i : Nat) (w : List Bool)
   | clear
   | swapDimensions
-  | capacityCall                                                       -- reserve / reserve_exact / shrink_to_fit / capacity
-  | fill (x : α)
-  | swap (c1 r1 c2 r2 : Nat)
-  | swapRows (r1 r2 : Nat)
-  | swapCols (c1 c2 : Nat)
-  | copyFromSlice (src : List α)
-  | translate (mc mr : Nat)
-  | flipRows
-  | flipCols
-  | sortByRow (le : α → α → Bool) (row : Nat)
-  | sortByCol (le : α → α → Bool) (col : Nat)
+  | capacityCall                                              -- reserve / reserve_exact / shrink_to_fit / capacity
+  | takeInto (k : Nat)                                        -- `mem::take(&mut t).into_iter()`, `k` items pulled, the rest dropped with
+                                                              --   the iterator (`into_vec` / `into_box`: everything handed over)
+  | inplace (op : MOp α)                                      -- every `TooDeeOpsMut` / `CopyOps` / `SortOps` / `TranslateOps` method and
+                                                              --   indexed writes, as dispatched on `TooDee` (Impl/Recv.lean)
 
 /-- the allocator honoured `reserve`: the spare cells cover what the operation asked for -/
 def HOp.spareOk : HOp α → Prop
@@ -40,14 +41,20 @@ def HOp.spareOk : HOp α → Prop
   | .insertCol _ it spare => it.claimed ≤ spare.length
   | _ => True
 
-/-- the grown array still fits a `Vec` (otherwise `reserve` panics with "capacity overflow" and the array is unchanged) -/
-def HOp.fits (n : Nat) : HOp α → Prop
-  | .insertRow _ it _ => n + it.claimed < WORD - 1
-  | .insertCol _ it _ => n + it.claimed < WORD - 1
-  | _ => True
+/-- model inputs respect the contracts of the components they stand for: the allocator honoured `reserve`, a side sort panics or
+    returns a permutation, the source of a `copy_from_toodee` is a valid array -/
+def HOp.wf : HOp α → Prop
+  | .inplace op => op.Sane ∧ op.srcOk
+  | op => op.spareOk
 
-/-- capacity bound used by the histories: any `Vec` capacity limit below 2^64 -/
-def histCap : Nat := WORD - 1
+/-- build environment of a history: profile, how many elements a `Vec<T>` can hold, how many entries a sort's side table can hold -/
+structure HEnv where
+  m : Mode
+  cap : Nat
+  lim : Nat
+
+/-- environments that exist: the `Vec` limit is below 2^64 -/
+def HEnv.ok (e : HEnv) : Prop := e.cap < WORD
 
 /-- keep the dimensions, replace the data when the in-place operation succeeded -/
 def TD.withData (t : TD α) (r : Res (List α)) : TD α :=
@@ -56,134 +63,272 @@ def TD.withData (t : TD α) (r : Res (List α)) : TD α :=
   | .error _ => t
 
 /-- the array after one operation (Impl-model) -/
-def hstep (m : Mode) (t : TD α) : HOp α → TD α
+def hstep (e : HEnv) (t : TD α) : HOp α → TD α
   | .fromVec c r v => match TD.fromVec c r v with | .ok t' => t' | .error _ => t
-  | .insertRow i it spare => (t.insertRow m histCap i it spare).t
-  | .insertCol i it spare => (t.insertCol m histCap i it spare).t
-  | .removeRow i => match t.removeRow m i with | .ok d => d.drop.1 | .error _ => t
-  | .removeCol i =>
-    match t.removeCol m i with
-    | .ok d => (match d.drop m with | .ok (t', _) => t' | .error _ => t)
+  | .insertRow i it spare => (t.insertRow e.m e.cap i it spare).t
+  | .insertCol i it spare => (t.insertCol e.m e.cap i it spare).t
+  | .removeRow i w => match t.removeRow e.m i with | .ok d => (d.run w).2.drop.1 | .error _ => t
+  | .removeCol i w =>
+    match (do let d ← t.removeCol e.m i; let (_, d') ← d.run e.m w; d'.drop e.m : Res (TD α × List α)) with
+    | .ok (t', _) => t'
     | .error _ => t
-  | .popRow =>
-    match t.popRow m with
-    | .ok (some d) => d.drop.1
+  | .popRow w =>
+    match t.popRow e.m with
+    | .ok (some d) => (d.run w).2.drop.1
     | _ => t
-  | .popCol =>
-    match t.popCol m with
-    | .ok (some d) => (match d.drop m with | .ok (t', _) => t' | .error _ => t)
+  | .popCol w =>
+    match (do
+      match ← t.popCol e.m with
+      | some d => do let (_, d') ← d.run e.m w; let r ← d'.drop e.m; pure (some r)
+      | none => pure none : Res (Option (TD α × List α))) with
+    | .ok (some (t', _)) => t'
     | _ => t
+  | .removeRowLeak i w => match t.removeRow e.m i with | .ok d => (d.run w).2.leak.1 | .error _ => t
+  | .removeColLeak i w =>
+    match (do let d ← t.removeCol e.m i; let (_, d') ← d.run e.m w; pure d'.leak : Res (TD α × List α)) with
+    | .ok (t', _) => t'
+    | .error _ => t
   | .clear => t.clear
   | .swapDimensions => t.swapDimensions
   | .capacityCall => t
-  | .fill x => { t with data := t.fill x }
-  | .swap c1 r1 c2 r2 => t.withData (t.swap m c1 r1 c2 r2)
-  | .swapRows r1 r2 => t.withData (t.swapRows m r1 r2)
-  | .swapCols c1 c2 => t.withData (t.acc.swapCols t.data c1 c2)
-  | .copyFromSlice src => t.withData (t.copyFromSlice src)
-  | .translate mc mr => t.withData (t.acc.translateWithWrap m (t.getUncheckedRow m) t.data (mc, mr))
-  | .flipRows => t.withData (t.acc.flipRows m t.data)
-  | .flipCols => t.withData (t.acc.flipCols t.data)
-  | .sortByRow le row => t.withData (t.acc.sortByRow (t.indexRow m) t.data le row)
-  | .sortByCol le col => t.withData (t.acc.sortByCol (t.col m) (fun b r1 r2 => ({ t with data := b } : TD α).swapRows m r1 r2) t.data le col)
+  | .takeInto _ => TD.default
+  | .inplace op => t.withData ((Recv.root t).run e.m e.lim t.data op)
+
+/-- the outcome the caller sees -/
+def hres (e : HEnv) (t : TD α) : HOp α → Res Unit
+  | .fromVec c r v => (TD.fromVec c r v).map fun _ => ()
+  | .insertRow i it spare => (t.insertRow e.m e.cap i it spare).res
+  | .insertCol i it spare => (t.insertCol e.m e.cap i it spare).res
+  | .removeRow i _ | .removeRowLeak i _ => (t.removeRow e.m i).map fun _ => ()
+  | .removeCol i w => do let d ← t.removeCol e.m i; let (_, d') ← d.run e.m w; let _ ← d'.drop e.m; pure ()
+  | .removeColLeak i w => do let d ← t.removeCol e.m i; let _ ← d.run e.m w; pure ()
+  | .popRow _ => (t.popRow e.m).map fun _ => ()
+  | .popCol w => do
+    match ← t.popCol e.m with
+    | some d => do let (_, d') ← d.run e.m w; let _ ← d'.drop e.m; pure ()
+    | none => pure ()
+  | .clear | .swapDimensions | .capacityCall | .takeInto _ => pure ()
+  | .inplace op => ((Recv.root t).run e.m e.lim t.data op).map fun _ => ()
 
 /-- the array after a history -/
-def hrun (m : Mode) (t : TD α) (ops : List (HOp α)) : TD α := ops.foldl (hstep m) t
+def hrun (e : HEnv) (t : TD α) (ops : List (HOp α)) : TD α := ops.foldl (hstep e) t
 
 /-! ### the rows-of-cells model -/
 
 /-- cell `(c,r)` of a grid -/
 def gcell (g : List (List α)) (c r : Nat) : Option α := (g[r]?).bind (·[c]?)
 
+/-- number of columns of a grid -/
+def gcols (g : List (List α)) : Nat := (g.head?.map List.length).getD 0
+
+/-- the grid of the same shape whose cell `(c,r)` is `f c r` -/
+def gridOf (C R : Nat) (f : Nat → Nat → Option α) : List (List α) :=
+  (List.range R).map fun r => (List.range C).filterMap fun c => f c r
+
 /-- the grid whose cell `(c,r)` is the old cell `f (c,r)` -/
 def gridPerm (g : List (List α)) (f : Nat × Nat → Nat × Nat) : List (List α) :=
   (List.range g.length).map fun r => (List.range ((g.head?.map List.length).getD 0)).filterMap fun c => gcell g (f (c, r)).1 (f (c, r)).2
 
-/-- the plain model's step: every operation of `HOp` on rows-of-cells (`none` only for iterator scripts that panic or lie about
-    their length: the property leaves the outcome of those open beyond "a valid array", C11) -/
+/-- the cells the source of `copy_from_toodee` shows, as rows; `none` = constructing the source view panics -/
+def CopySrc.grid? (s : CopySrc α) : Option (List (List α)) :=
+  match s.window with
+  | none => some s.arr.grid
+  | some (tl, br) =>
+    if tl.1 ≤ br.1 ∧ tl.2 ≤ br.2 ∧ br.1 ≤ s.arr.numCols ∧ br.2 ≤ s.arr.numRows then
+      let sz := viewSize tl br
+      some (gridOf sz.1 sz.2 fun c r => gcell s.arr.grid (tl.1 + c) (tl.2 + r))
+    else none
+
+/-- the plain model of an in-place operation on rows-of-cells: `some g'` = it succeeds with result `g'`; `some g` unchanged = it is
+    rejected or caller code panicked before anything was written; `none` = the side sort broke its contract (not a permutation) -/
+def gstepM (g : List (List α)) : MOp α → Option (List (List α))
+  | .set c r x => if c < gcols g ∧ r < g.length then some (g.mapIdx fun r' ρ => if r' = r then ρ.set c x else ρ) else some g
+  | .setInRow r c x => if c < gcols g ∧ r < g.length then some (g.mapIdx fun r' ρ => if r' = r then ρ.set c x else ρ) else some g
+  | .fill x => some (g.map fun ρ => ρ.map fun _ => x)
+  | .swap c1 r1 c2 r2 =>
+    if c1 < gcols g ∧ c2 < gcols g ∧ r1 < g.length ∧ r2 < g.length then some (gridPerm g (swapCellG (c1, r1) (c2, r2))) else some g
+  | .swapRows r1 r2 => if r1 < g.length ∧ r2 < g.length then some (gridPerm g (swapRowsG r1 r2)) else some g
+  | .swapCols c1 c2 => if c1 < gcols g ∧ c2 < gcols g then some (gridPerm g (swapColsG c1 c2)) else some g
+  | .copyFromSlice src => if gcols g * g.length = src.length then some (toRows (gcols g) src) else some g
+  | .copyFromTooDee src =>
+    match src.grid? with
+    | some sg => if sg.length = g.length ∧ gcols sg = gcols g then some sg else some g
+    | none => some g
+  | .copyWithin tl br dest =>
+    if rectsFit (gcols g) g.length tl br dest then
+      some (gridOf (gcols g) g.length fun c r =>
+        if dest.1 ≤ c ∧ c < dest.1 + (br.1 - tl.1) ∧ dest.2 ≤ r ∧ r < dest.2 + (br.2 - tl.2) then
+          gcell g (c - dest.1 + tl.1) (r - dest.2 + tl.2)
+        else gcell g c r)
+    else some g
+  | .translate mc mr =>
+    if mc ≤ gcols g ∧ mr ≤ g.length then some (gridPerm g (translateG (gcols g) g.length mc mr)) else some g
+  | .flipRows => some g.reverse
+  | .flipCols => some (g.map List.reverse)
+  | .sortRow side row =>
+    if row < g.length then
+      match side (g[row]?.getD []) with
+      | .ok p => if p.Perm (List.range (gcols g)) then some (gridPerm g (sortColsG p)) else none
+      | .error _ => some g
+    else some g
+  | .sortCol side col =>
+    if col < gcols g then
+      match side (g.filterMap (·[col]?)) with
+      | .ok p => if p.Perm (List.range g.length) then some (gridPerm g (sortRowsG p)) else none
+      | .error _ => some g
+    else some g
+
+/-- the plain model's step (`none`: an iterator script that panics or lies about its length — the property leaves the outcome of
+    those open beyond "a valid array", C11 — or a side sort that broke its contract) -/
 def gstep (g : List (List α)) : HOp α → Option (List (List α))
   | .insertRow i it _ =>
     let xs := it.events.filterMap id
-    let C := (g.head?.map List.length).getD 0
+    let C := gcols g
     if it.events.all Option.isSome ∧ it.claimed = xs.length then
       if g = [] then some (if i = 0 ∧ xs ≠ [] then [xs] else [])       -- the index must still be `≤ num_rows = 0`
       else if i ≤ g.length ∧ xs.length = C then some (g.insertIdx i xs) else some g
     else none
   | .insertCol i it _ =>
     let xs := it.events.filterMap id
-    let C := (g.head?.map List.length).getD 0
+    let C := gcols g
     if it.events.all Option.isSome ∧ it.claimed = xs.length then
       if g = [] then some (if i = 0 then xs.map (fun x => [x]) else [])
       else if i ≤ C ∧ xs.length = g.length then some (List.zipWith (insAt i) g xs) else some g
     else none
-  | .removeRow i => some (g.eraseIdx i)
-  | .removeCol i =>
-    let C := (g.head?.map List.length).getD 0
+  | .removeRow i _ => some (g.eraseIdx i)
+  | .removeCol i _ =>
+    let C := gcols g
     if i < C then (if C = 1 then some [] else some (g.map fun ρ => ρ.eraseIdx i)) else some g
-  | .popRow => some g.dropLast
-  | .popCol =>
-    let C := (g.head?.map List.length).getD 0
+  | .popRow _ => some g.dropLast
+  | .popCol _ =>
+    let C := gcols g
     if C = 0 then some g else if C = 1 then some [] else some (g.map fun ρ => ρ.eraseIdx (C - 1))
+  | .removeRowLeak i _ => if i < g.length then some (g.take i) else some g    -- the rows before `i` survive
+  | .removeColLeak i _ => if i < gcols g then some [] else some g             -- nothing survives
   | .clear => some []
   | .capacityCall => some g
-  | .fill x => some (g.map fun ρ => ρ.map fun _ => x)
-  | .swapRows r1 r2 =>
-    if r1 < g.length ∧ r2 < g.length then some (gridPerm g (swapRowsG r1 r2)) else some g
-  | .swapCols c1 c2 =>
-    let C := (g.head?.map List.length).getD 0
-    if c1 < C ∧ c2 < C then some (gridPerm g (swapColsG c1 c2)) else some g
-  | .flipRows => some g.reverse
-  | .flipCols => some (g.map List.reverse)
+  | .takeInto _ => some []
   | .fromVec c r v => if specShapeOk c r ∧ c * r = v.length then some (toRows c v) else some g
   | .swapDimensions => some (toRows g.length g.flatten)          -- same cells, rows of the old `num_rows` cells each
-  | .swap c1 r1 c2 r2 =>
-    let C := (g.head?.map List.length).getD 0
-    if c1 < C ∧ c2 < C ∧ r1 < g.length ∧ r2 < g.length then some (gridPerm g (swapCellG (c1, r1) (c2, r2))) else some g
-  | .copyFromSlice src =>
-    let C := (g.head?.map List.length).getD 0
-    if C * g.length = src.length then some (toRows C src) else some g
-  | .translate mc mr =>
-    let C := (g.head?.map List.length).getD 0
-    if mc ≤ C ∧ mr ≤ g.length then some (gridPerm g (translateG C g.length mc mr)) else some g
-  | .sortByRow le row =>
-    if row < g.length then some (gridPerm g (sortColsG (stablePerm le (g[row]?.getD [])))) else some g
-  | .sortByCol le col =>
-    let C := (g.head?.map List.length).getD 0
-    if col < C then some (gridPerm g (sortRowsG (stablePerm le (g.filterMap (·[col]?))))) else some g
+  | .inplace op => gstepM g op
+
+/-- the plain model over a history -/
+def grun : List (List α) → List (HOp α) → Option (List (List α))
+  | g, [] => some g
+  | g, op :: ops => (gstep g op).bind fun g' => grun g' ops
+
+/-- the side conditions of a refinement step, along a history: the allocator honoured `reserve`, the grown array still fits a `Vec`
+    (otherwise `reserve` panics with "capacity overflow": the plain model has no capacity), a sorted line fits the side table, and a
+    `copy_from_toodee` source is a valid array -/
+def HOp.fits (e : HEnv) (t : TD α) : HOp α → Prop
+  | .insertRow _ it _ => t.data.length + it.claimed ≤ e.cap
+  | .insertCol _ it _ => t.data.length + it.claimed ≤ e.cap
+  | .inplace (.sortRow _ _) => t.numCols ≤ e.lim
+  | .inplace (.sortCol _ _) => t.numRows ≤ e.lim
+  | .inplace op => op.srcOk
+  | _ => True
+
+def hfits (e : HEnv) : TD α → List (HOp α) → Prop
+  | _, [] => True
+  | t, op :: ops => op.spareOk ∧ op.fits e t ∧ hfits e (hstep e t op) ops
 
 /-! ### element flow of one operation (for the conservation law C05 over histories) -/
 
-/-- the elements one operation takes from the caller (`supplied`) and the elements that leave the array during it
-    (`removed`: handed to the caller through a drain or back in the unconsumed iterator, dropped by the crate, or leaked) -/
-def hflow (m : Mode) (t : TD α) : HOp α → List α × List α
-  | .fromVec c r v => match TD.fromVec c r v with | .ok _ => (v, t.data) | .error _ => (v, v)
-  | .insertRow i it spare =>
-    let o := t.insertRow m histCap i it spare
-    (it.events.filterMap id, o.leaked ++ o.rest.filterMap id)
-  | .insertCol i it spare =>
-    let o := t.insertCol m histCap i it spare
-    (it.events.filterMap id, o.leaked ++ o.rest.filterMap id)
-  | .removeRow i => match t.removeRow m i with | .ok d => ([], d.items) | .error _ => ([], [])
-  | .removeCol i =>
-    match t.removeCol m i with
-    | .ok d => (match d.drop m with | .ok (_, dropped) => ([], dropped) | .error _ => ([], []))
-    | .error _ => ([], [])
-  | .popRow => match t.popRow m with | .ok (some d) => ([], d.items) | _ => ([], [])
-  | .popCol =>
-    match t.popCol m with
-    | .ok (some d) => (match d.drop m with | .ok (_, dropped) => ([], dropped) | .error _ => ([], []))
-    | _ => ([], [])
-  | .clear => ([], t.data)
-  | .fill x => (List.replicate t.data.length x, t.data)          -- one clone per cell; every old cell is dropped
-  | .copyFromSlice src => match t.copyFromSlice src with | .ok _ => (src, t.data) | .error _ => ([], [])
-  | _ => ([], [])                                                 -- pure permutations, capacity calls, swap_dimensions
+/-- where elements come from and go to during one call -/
+structure Flow (α : Type) where
+  supplied : List α := []     -- taken from the caller (by value), or created by the crate on the caller's behalf (clones)
+  handed : List α := []       -- handed (back) to the caller: yielded by a drain / `into_iter`, or still in the caller's iterator
+  dropped : List α := []      -- dropped by the crate (or by std on its behalf) during the call
+  leaked : List α := []       -- alive but owned by nobody afterwards
 
-/-- the elements supplied / removed over a whole history -/
-def hflowRun (m : Mode) : TD α → List (HOp α) → List α × List α
-  | _, [] => ([], [])
-  | t, op :: ops =>
-    let f := hflow m t op
-    let rest := hflowRun m (hstep m t op) ops
-    (f.1 ++ rest.1, f.2 ++ rest.2)
+def Flow.append (a b : Flow α) : Flow α :=
+  ⟨a.supplied ++ b.supplied, a.handed ++ b.handed, a.dropped ++ b.dropped, a.leaked ++ b.leaked⟩
+
+/-- the cells of an owned array an overwrite `f` replaces, and the values it writes (row-major) -/
+def TD.overwritten (t : TD α) (f : Nat × Nat → Option α) : List α :=
+  (List.range t.data.length).filterMap fun p => (t.asView.coord? p).bind fun cr => (f cr).bind fun _ => t.data[p]?
+def TD.written (t : TD α) (f : Nat × Nat → Option α) : List α :=
+  (List.range t.data.length).filterMap fun p => (t.asView.coord? p).bind f
+
+/-- the cell function of each overwriting in-place operation when it succeeds (`none` = not an overwrite / rejected) -/
+def MOp.cellsWritten (t : TD α) : MOp α → Option (Nat × Nat → Option α)
+  | .set c r x | .setInRow r c x => if c < t.numCols ∧ r < t.numRows then some (fun cr => if cr = (c, r) then some x else none) else none
+  | .fill x => some (fun _ => some x)
+  | .copyFromSlice src => if t.data.length = src.length then some (fun cr => src[cr.2 * t.numCols + cr.1]?) else none
+  | .copyFromTooDee src =>
+    match src.grid? with
+    | some sg => if sg.length = t.numRows ∧ gcols sg = t.numCols then some (fun cr => gcell sg cr.1 cr.2) else none
+    | none => none
+  | .copyWithin tl br dest =>
+    if rectsFit t.numCols t.numRows tl br dest then some (copyWithinCells t.asView t.data tl br dest) else none
+  | _ => none
+
+/-- flow of an in-place operation: permutations move nothing in or out; an overwrite takes the written values from the caller
+    (clones / copies made on its behalf) and drops the cells it replaces; a rejected `set` drops the value it was given -/
+def mflow (t : TD α) (op : MOp α) : Flow α :=
+  match op.cellsWritten t with
+  | some f =>
+    -- `fill(x)` on an empty array: `x` itself is taken and dropped
+    let extra := match op with | .fill x => if t.data.length = 0 then [x] else [] | _ => []
+    { supplied := t.written f ++ extra, dropped := t.overwritten f ++ extra }
+  | none =>
+    match op with
+    | .set _ _ x | .setInRow _ _ x => { supplied := [x], dropped := [x] }
+    | _ => {}
+
+/-- the elements one operation takes from the caller and the elements that leave the array during it -/
+def hflow (e : HEnv) (t : TD α) : HOp α → Flow α
+  | .fromVec c r v => match TD.fromVec c r v with | .ok _ => { supplied := v, dropped := t.data } | .error _ => { supplied := v, dropped := v }
+  | .insertRow i it spare =>
+    let o := t.insertRow e.m e.cap i it spare
+    { supplied := it.events.filterMap id, handed := o.rest.filterMap id, leaked := o.leaked }
+  | .insertCol i it spare =>
+    let o := t.insertCol e.m e.cap i it spare
+    { supplied := it.events.filterMap id, handed := o.rest.filterMap id, leaked := o.leaked }
+  | .removeRow i w =>
+    match t.removeRow e.m i with
+    | .ok d => let r := d.run w; { handed := r.1, dropped := r.2.drop.2 }
+    | .error _ => {}
+  | .removeRowLeak i w =>
+    match t.removeRow e.m i with
+    | .ok d => let r := d.run w; { handed := r.1, leaked := r.2.leak.2 }
+    | .error _ => {}
+  | .removeCol i w =>
+    match (do let d ← t.removeCol e.m i; let (ys, d') ← d.run e.m w; let r ← d'.drop e.m; pure (ys, r.2) : Res (List α × List α)) with
+    | .ok (ys, dropped) => { handed := ys, dropped := dropped }
+    | .error _ => {}
+  | .removeColLeak i w =>
+    match (do let d ← t.removeCol e.m i; let (ys, d') ← d.run e.m w; pure (ys, d'.leak.2) : Res (List α × List α)) with
+    | .ok (ys, leaked) => { handed := ys, leaked := leaked }
+    | .error _ => {}
+  | .popRow w =>
+    match t.popRow e.m with
+    | .ok (some d) => let r := d.run w; { handed := r.1, dropped := r.2.drop.2 }
+    | _ => {}
+  | .popCol w =>
+    match (do
+      match ← t.popCol e.m with
+      | some d => do let (ys, d') ← d.run e.m w; let r ← d'.drop e.m; pure (ys, r.2)
+      | none => pure ([], []) : Res (List α × List α)) with
+    | .ok (ys, dropped) => { handed := ys, dropped := dropped }
+    | .error _ => {}
+  | .clear => { dropped := t.data }
+  | .takeInto k => { handed := t.data.take k, dropped := t.data.drop k }
+  | .inplace op =>
+    match (Recv.root t).run e.m e.lim t.data op with
+    | .ok _ => mflow t op
+    | .error _ => (match op with | .set _ _ x | .setInRow _ _ x => { supplied := [x], dropped := [x] } | _ => {})
+  | _ => {}                                                       -- capacity calls, swap_dimensions
+
+/-- the flow of a whole history -/
+def hflowRun (e : HEnv) : TD α → List (HOp α) → Flow α
+  | _, [] => {}
+  | t, op :: ops => (hflow e t op).append (hflowRun e (hstep e t op) ops)
+
+/-- an operation during which no caller code panics, no iterator lies and nothing is forgotten -/
+def HOp.honest : HOp α → Prop
+  | .insertRow _ it _ | .insertCol _ it _ => it.events.all Option.isSome ∧ it.claimed = it.events.length
+  | .removeRowLeak _ _ | .removeColLeak _ _ => False
+  | _ => True
 
 end Toodee
